@@ -1,5 +1,6 @@
 import PW.Props.C01
 import PW.Proofs.SpecLemmas
+import PW.Proofs.Channels
 /-!
 # C06 — Kraus channels are applied as Σ K ρ K† on the named subsystems
 
@@ -9,6 +10,7 @@ hence so is the accumulated sum the implementation forms.
 -/
 namespace PW.Props.C06
 open PW PW.Spec
+open scoped ComplexOrder Matrix
 
 variable {R : Type} [CommRing R] [StarRing R]
 
@@ -33,8 +35,23 @@ theorem kraus_append (dims : List Nat) (T : List Nat) (Ks Ls : List (Tensor R)) 
     krausOn dims T (Ks ++ Ls) ρ rc = krausOn dims T Ks ρ rc + krausOn dims T Ls ρ rc := by
   simp [krausOn, List.map_append, List.sum_append]
 
+/-- **Trace preservation** (Mathlib matrices over ℂ, addressed part `a`, everything else `b`, any
+joint state, entangled or not): `Σ Kᵢ†Kᵢ = 1 ⇒ Tr Σ (Kᵢ⊗1)ρ(Kᵢ⊗1)† = Tr ρ`. -/
+theorem channel_preserves_trace {a b ι : Type} [Fintype a] [Fintype b] [DecidableEq a] [DecidableEq b]
+    (s : Finset ι) (K : ι → Matrix a a ℂ) (hK : ∑ i ∈ s, (K i)ᴴ * K i = 1) (ρ : Matrix (a × b) (a × b) ℂ) :
+    Matrix.trace (∑ i ∈ s, PW.Channels.emb (K i) * ρ * (PW.Channels.emb (K i))ᴴ) = Matrix.trace ρ :=
+  PW.Channels.kraus_trace_preserving s K hK ρ
+
+/-- **Positivity**: the channel output is positive semidefinite (hence Hermitian) -/
+theorem channel_preserves_positivity {a b ι : Type} [Fintype a] [Fintype b] [DecidableEq a] [DecidableEq b]
+    (s : Finset ι) (K : ι → Matrix a a ℂ) (ρ : Matrix (a × b) (a × b) ℂ) (hρ : ρ.PosSemidef) :
+    (∑ i ∈ s, PW.Channels.emb (K i) * ρ * (PW.Channels.emb (K i))ᴴ).PosSemidef :=
+  PW.Channels.kraus_posSemidef s K ρ hρ
+
 end PW.Props.C06
 
 #print axioms PW.Props.C06.kraus_sum_of_plans
 #print axioms PW.Props.C06.kraus_single
 #print axioms PW.Props.C06.kraus_append
+#print axioms PW.Props.C06.channel_preserves_trace
+#print axioms PW.Props.C06.channel_preserves_positivity
